@@ -925,7 +925,7 @@ func buildBlocks(quick bool) []block {
 		// over {0,1} no set lists more than 2 elements, so bufSize 2 already shares the buffer always
 		out = append(out, sysFamily{n: 4, u: 2, reversed: false, unionRefMax: 2, interMax: 2, bufs: []int{0, 2}}.blocks()...)
 	} else {
-		out = append(out, sysFamily{n: 4, u: 2, reversed: true, unionRefMax: 2, interMax: 3, bufs: []int{0, 1, 2}}.blocks()...)
+		out = append(out, sysFamily{n: 4, u: 2, reversed: true, unionRefMax: 2, interMax: 3, bufs: []int{0, 2}}.blocks()...)
 	}
 	out = append(out, exprFamily{u: 3, m: 2}.blocks()...)
 	out = append(out, exprFamily{u: 3, m: 3}.blocks()...)
@@ -1101,7 +1101,7 @@ func lastCase(tail string) (json.RawMessage, bool) {
 
 func run(c *core.Ctx) {
 	c.Rule("IntSet: every ordered pair of the 2^(u+1) finite/co-finite subsets of {0..u-1} (u<=5 quick, u<=6 thorough) x {Merge, Intersect} x 7 reuse-buffer variants (nil, cap 0, cap 1, exact, large pre-filled, aliasing operand a, aliasing operand b), plus Equals on every pair and Empty/Complement on every set; non-trivial = both operands list >= 1 element. " +
-		"Closure: every equation system buildable through the API with n nodes over {0..u-1}: node = union(any constant, <=2 (thorough n=3: <=3) references to any nodes, both orders) | intersection(ordered tuple of <=2 (thorough <=3) earlier nodes, repetition allowed, arity 0 = universal) | complement(earlier node); quick: n<=3,u=3 and n=4,u=2 (union references ascending only); thorough adds n=4,u=2 with both orders and ternary intersections, n=3,u=3 with 3 references, n=2,u=4; plus expression systems (m<=3 (thorough 4) constants, each optionally complemented by its own node, combined by one intersection or union: up to 9 nodes); each system with NewClosure(0|2|16) (n=4 over {0,1}: 0|2 quick, 0|1|2 thorough, since no set there lists more than 2 elements); non-trivial = at least one reference or non-union node; all cases distinct by construction")
+		"Closure: every equation system buildable through the API with n nodes over {0..u-1}: node = union(any constant, <=2 (thorough n=3: <=3) references to any nodes, both orders) | intersection(ordered tuple of <=2 (thorough <=3) earlier nodes, repetition allowed, arity 0 = universal) | complement(earlier node); quick: n<=3,u=3 and n=4,u=2 (union references ascending only); thorough adds n=4,u=2 with both orders and ternary intersections, n=3,u=3 with 3 references, n=2,u=4; plus expression systems (m<=3 (thorough 4) constants, each optionally complemented by its own node, combined by one intersection or union: up to 9 nodes); each system with NewClosure(0|2|16) (n=4 over {0,1}: 0|2, since no set there lists more than 2 elements); non-trivial = at least one reference or non-union node; all cases distinct by construction")
 	c.Assume("IntSet values are judged as sets over Z through a universe {0..u-1} plus one 'every other integer' bit; results must be strictly sorted and list only universe elements")
 	c.Assume("reuse overlapping an operand is demanded exact only for in-place filtering (result list is a sub-list of the aliased operand); other overlaps are classified as hazard:* outcomes, not violations")
 	c.Assume("intersection of zero sets = universal set (implementation convention for >= 2 nodes); a closure consisting of a single empty intersection is not enumerated")
